@@ -534,14 +534,34 @@ mod copy_alt {
             let dflt = super::$t::<C>::default();
             let same_variant = !$tagged || Vec::from(v).first() == Vec::from(&dflt).first();
             let other = if same_variant { dflt } else { v.clone() };
-            Some(match route % 3 {
+            Some(match route % 4 {
                 0 => v.clone(),
                 1 => <super::$t<C> as ConditionallySelectable>::conditional_select(&other, v, Choice::from(1u8)),
-                _ => <super::$t<C> as ConditionallySelectable>::conditional_select(v, &other, Choice::from(0u8)),
+                2 => <super::$t<C> as ConditionallySelectable>::conditional_select(v, &other, Choice::from(0u8)),
+                _ => {
+                    // cloned ONTO the type's default (another scheme label for most labelled values)
+                    let mut dst = super::$t::<C>::default();
+                    dst.clone_from(v);
+                    dst
+                }
             })
         })* };
     }
-    cloned!(SecretKeyShare, SignCryptCiphertext, SignCryptDecryptionKey, SignDecryptionShare, TimeCryptCiphertext, ElGamalProof, ElGamalDecryptionShare, ElGamalDecryptionKey);
+    // `Clone::clone_from` is a method of its own (types may override it "to reuse a buffer"): the value is cloned ONTO another
+    // value of the type — the default, which for the labelled types carries another scheme label than most values
+    macro_rules! cloned_onto_default {
+        ($($t:ident),*) => { $(pub fn $t<C: CI>(v: &super::$t<C>, route: u8) -> Option<super::$t<C>> {
+            if route % 2 == 0 {
+                Some(v.clone())
+            } else {
+                let mut dst = super::$t::<C>::default();
+                dst.clone_from(v);
+                Some(dst)
+            }
+        })* };
+    }
+    cloned!(SecretKeyShare, SignDecryptionShare, ElGamalDecryptionShare);
+    cloned_onto_default!(SignCryptCiphertext, SignCryptDecryptionKey, TimeCryptCiphertext, ElGamalProof, ElGamalDecryptionKey);
     pub fn PublicKeyShare<C: CI>(v: &super::PublicKeyShare<C>, route: u8) -> Option<super::PublicKeyShare<C>> {
         // another value of the type: the same share under another identifier
         let mut b = Vec::from(v);
@@ -1244,6 +1264,33 @@ fn dispatch<C: CI>(op: Op, a: &[&[u8]]) -> R<Vec<Vec<u8>>> {
             let panics = a.get(4).map(|b| b == &[1u8]).unwrap_or(false);
             with_ty!(ty, C, interrupted(ci, arg(a, 2)?, k, panics))
         }
+        Op::DecodeInterrupted => {
+            struct Failing<'a>(&'a [u8], usize, bool);
+            impl<'a> std::io::Read for Failing<'a> {
+                fn read(&mut self, out: &mut [u8]) -> std::io::Result<usize> {
+                    if self.1 == 0 {
+                        if self.2 {
+                            panic!("caller: source failed");
+                        }
+                        return Err(std::io::Error::new(std::io::ErrorKind::Other, "source failed"));
+                    }
+                    let n = out.len().min(self.1).min(self.0.len());
+                    out[..n].copy_from_slice(&self.0[..n]);
+                    self.0 = &self.0[n..];
+                    self.1 -= n;
+                    Ok(n)
+                }
+            }
+            fn interrupted<T: Wire + serde::de::DeserializeOwned>(text: &[u8], k: usize, panics: bool) -> R<Vec<Vec<u8>>> {
+                let r = catch_unwind(AssertUnwindSafe(|| serde_json::from_reader::<_, T>(Failing(text, k, panics)).is_ok()));
+                simtypes::take_panic();
+                Ok(vec![flag(r.unwrap_or(false))])
+            }
+            let ty = Ty::from_u8(*arg(a, 0)?.first().ok_or("ty")?).ok_or("ty")?;
+            let k = u64_of(arg(a, 2)?)? as usize;
+            let panics = a.get(3).map(|b| b == &[1u8]).unwrap_or(false);
+            with_ty!(ty, C, interrupted(arg(a, 1)?, k, panics))
+        }
         Op::PokCommitNestedAsRef => {
             struct Nested<'a, C: CI> {
                 msg: &'a [u8],
@@ -1380,6 +1427,7 @@ fn dispatch<C: CI>(op: Op, a: &[&[u8]]) -> R<Vec<Vec<u8>>> {
                 at: u64,
                 width: u64,
                 fill: u8,
+                panics: bool,
             }
             impl rand_core::RngCore for Faulty {
                 fn next_u32(&mut self) -> u32 {
@@ -1396,6 +1444,9 @@ fn dispatch<C: CI>(op: Op, a: &[&[u8]]) -> R<Vec<Vec<u8>>> {
                     let hit = self.n >= self.at && self.n < self.at + self.width;
                     self.n += 1;
                     self.inner.fill_bytes(dest);
+                    if hit && self.panics {
+                        panic!("caller: entropy source failed");
+                    }
                     if hit {
                         dest.iter_mut().for_each(|b| *b = self.fill);
                     }
@@ -1407,8 +1458,12 @@ fn dispatch<C: CI>(op: Op, a: &[&[u8]]) -> R<Vec<Vec<u8>>> {
             }
             impl rand_core::CryptoRng for Faulty {}
             let sk = sk_lenient::<C>(arg(a, 0)?)?;
-            let rng = Faulty { inner: ChaCha20Rng::from_seed(seed32(arg(a, 3)?)?), n: 0, at: u64_of(arg(a, 4)?)?, width: a.get(6).map(|b| u64_of(b)).transpose()?.unwrap_or(1).max(1), fill: *arg(a, 5)?.first().ok_or("fill")? };
-            let shares = sk.split_with_rng(u64_of(arg(a, 1)?)? as usize, u64_of(arg(a, 2)?)? as usize, rng).map_err(e)?;
+            let rng = Faulty { inner: ChaCha20Rng::from_seed(seed32(arg(a, 3)?)?), n: 0, at: u64_of(arg(a, 4)?)?, width: a.get(6).map(|b| u64_of(b)).transpose()?.unwrap_or(1).max(1), fill: *arg(a, 5)?.first().ok_or("fill")?, panics: a.get(7).map(|b| b == &[1u8]).unwrap_or(false) };
+            let (t, n) = (u64_of(arg(a, 1)?)? as usize, u64_of(arg(a, 2)?)? as usize);
+            // the caller's own unwinding (its generator panicked) is the caller's business: caught here, reported as a refusal
+            let r = catch_unwind(AssertUnwindSafe(|| sk.split_with_rng(t, n, rng)));
+            simtypes::take_panic();
+            let shares = r.map_err(|_| "caller's generator panicked inside the call and the caller caught it".to_string())?.map_err(e)?;
             Ok(shares.iter().map(Vec::from).collect())
         }
         Op::MultiSigVerifyKeys => {
